@@ -16,17 +16,22 @@ spark.sparkContext.setLogLevel("ERROR")
 schema = StructType([StructField("a", LongType(), True), StructField("b", LongType(), True), StructField("s", StringType(), True)])
 
 class Ctx: seed = 4242; tier = "quick"
-progs, _ = c01.make_programs(Ctx)
 PATH = "/verif/oracle/c01_pyspark.jsonl"
 if "--corpus" in sys.argv:
+    # C01's extended program set: its corpus + every short program that asks for a direction through `ascending=`
+    progs, _ = c01.make_programs(Ctx, extended=True)
     have = {json.dumps(json.loads(l)["steps"]) for l in open(PATH)}
     todo = []
-    for p in progs[:c01.N_CORPUS]:
+    for i, p in enumerate(progs):
         (_, _), st = c01.plan_mode(p)
-        if json.dumps(json.loads(json.dumps(st))) not in have:
+        wanted = i < c01.N_CORPUS or (len(st) <= 2 and any(x[0] == "orderByFlags" for x in st))
+        key = json.dumps(json.loads(json.dumps(st)))
+        if wanted and st and key not in have:
+            have.add(key)
             todo.append(p)
     out = open(PATH, "a")
 else:
+    progs, _ = c01.make_programs(Ctx)
     rnd = random.Random(1)
     rnd.shuffle(progs)
     todo = progs[:420]
